@@ -68,6 +68,15 @@ func c01Inputs(thorough bool) []c01Input {
 			r = append(r, c01Input{Name: fmt.Sprintf("%s%d", kind, n), Kind: kind, Data: gitx.Content(kind, n, uint32(n))})
 		}
 	}
+	// whitespace-only content (must be stored like any other content; only the zero-length file is the empty pointer)
+	for _, n := range []int{1, 2, 1023, 1024, 1025, 2048} {
+		d := make([]byte, n)
+		for i := range d {
+			d[i] = " \n\t\r\n"[i%5]
+		}
+		r = append(r, c01Input{Name: fmt.Sprintf("blank%d", n), Kind: "blank", Data: d})
+	}
+	r = append(r, c01Input{Name: "blank-nl1", Kind: "blank", Data: []byte("\n")}, c01Input{Name: "blank-crlf2", Kind: "blank", Data: []byte("\r\n")})
 	// pointer look-alikes: canonical pointer text followed by non-blank padding up to the size (never parseable as a whole)
 	p := c01BasePointerText(0)
 	for _, n := range []int{len(p) + 1, 1023, 1024, 1025, 4096, 65517} {
@@ -117,7 +126,7 @@ func c01SmudgeChunkings(full bool) []c01Chunking {
 // smudge class of a pointer delivered with chunking sm
 func c01SmudgeClass(ptr []byte, sm c01Chunking, ext string) string {
 	cl := "pointer-split-across-reads"
-	if fr := sm.firstRead(len(ptr)); fr > 0 && fr < len(ptr) && c01ImplParses(ptr[:fr]) {
+	if fr := sm.firstRead(len(ptr)); fr > 0 && fr < len(ptr) && c01IsPointerText(ptr[:fr]) {
 		cl = "pointer-cut-leaves-shorter-valid-pointer"
 	}
 	if ext != "" {
@@ -538,7 +547,7 @@ func (e *c01Env) partFilterProcess() c01Part {
 			if fp != nil {
 				fp.Close()
 			}
-			r.ToolErr = "filter-process handshake failed: " + err.Error()
+			r.Inconcl = "filter-process handshake did not complete"; _ = err
 			return r
 		}
 		status, out, rerr := fp.Request("clean", "f.bin", in.Data, pk.sizes)
@@ -710,7 +719,7 @@ func (e *c01Env) partGit() c01Part {
 					return r
 				}
 				if !rs.OK() {
-					r.ToolErr = "git commit failed: " + rs.String()
+					r.Inconcl = "git commit did not succeed"
 					return r
 				}
 				os.Remove(filepath.Join(repo, "f.bin"))
@@ -862,7 +871,8 @@ func (e *c01Env) partMerge() c01Part {
 				return false
 			}
 			if !rs.OK() {
-				r.ToolErr = fmt.Sprintf("setup step git %v failed: %s", args, rs)
+				// a failing git command emits no wrong pointer: not a verdict of this property; the other parts decide
+				r.Inconcl = fmt.Sprintf("setup step git %s did not succeed", args[0])
 				return false
 			}
 			return true
@@ -945,6 +955,282 @@ func (e *c01Env) partMerge() c01Part {
 }
 
 // ---------------------------------------------------------------------------------------------------------
+// part: extfail — a pointer-extension program that FAILS (exit 3): the only extension, the last or a non-last program
+// of the pipeline; after consuming its input and writing nothing / after writing 3 bytes / before reading; during
+// clean or during smudge.  The statement is judged only when git-lfs reports success: a clean that succeeded must have
+// emitted a pointer that records what is stored and that smudges back to the original bytes; a smudge that succeeded
+// must have produced the original bytes.  A clean / smudge / git command that fails is fine.
+
+func (e *c01Env) partExtFail() c01Part {
+	keep := map[string]bool{"empty": true, "bin1": true, "text1023": true, "text4096": true, "bin65517": true}
+	var ins []c01Input
+	for _, in := range e.inputs {
+		if keep[in.Name] || (e.thorough && (in.Kind == "text" || in.Kind == "look")) {
+			ins = append(ins, in)
+		}
+	}
+	poss := []string{"only", "last", "nonlast"}
+	behs := []string{"nowrite", "partial", "early"}
+	phases := []string{"clean", "smudge"}
+	deliveries := []string{"inproc", "oneshot", "git add+checkout (filter-process)", "git add+checkout (one-shot filters)"}
+	run := func(x *vx.X) vx.Result {
+		in := ins[x.In(len(ins))]
+		n := len(in.Data)
+		pos := poss[x.In(len(poss))]
+		phase := phases[x.In(len(phases))]
+		bs := behs
+		if n > 1025 {
+			bs = behs[:2] // a program that exits before reading a long input can leave clean blocked on its pipe: not enumerated
+		}
+		beh := bs[x.In(len(bs))]
+		delivery := deliveries[x.In(len(deliveries))]
+		ch := c01Chunking{}
+		if beh != "early" && n > 1 && (delivery == "inproc" || delivery == "oneshot") && x.In(2) == 1 {
+			ch = c01Chunking{Cuts: []int{1}}
+		}
+		ext := fmt.Sprintf("xf/%s/%s/%s", pos, beh, phase)
+		class := fmt.Sprintf("extension-%s-fails,%s,%s-program", phase, beh, pos)
+		caseID := fmt.Sprintf("extfail input=%s failing=%s/%s/%s delivery=%s chunking=%s", in.Name, phase, pos, beh, delivery, ch)
+		r := vx.Result{Evals: 1, Counters: map[string]int64{}, NonTrivial: []string{caseID}, Sample: map[string]interface{}{"delivery": delivery, "input": in.Name, "bytes": n,
+			"failing_phase": phase, "failing_program": pos, "failure": beh, "chunking": ch.String()}}
+		cl := map[string]int64{}
+		defer func() {
+			for k, v := range cl {
+				r.Counters["clause:"+k] += v
+			}
+		}()
+		viol := func(f *c01Fail, detail map[string]interface{}) {
+			r.Violations = append(r.Violations, c01Viol(e.prop, f, class, caseID, detail))
+		}
+		// judge what a successful clean emitted: pointer, object as the pointer says; with a working pipeline also the model
+		judgeClean := func(out []byte, store []c01StoreFile) (*c01Ptr, *c01Fail) {
+			if phase == "smudge" {
+				_, f := c01JudgeClean(ext, in.Data, out, store, cl)
+				p, _ := c01ParsePointer(out)
+				return p, f
+			}
+			cl["successful-clean-emits-a-pointer"]++
+			p, err := c01ParsePointer(out)
+			if err != nil {
+				return nil, &c01Fail{"output-not-a-pointer", fmt.Sprintf("clean reported success although an extension program failed, and emitted %s", c01Short(out))}
+			}
+			if p.Size > 0 {
+				cl["successful-clean-stored-what-the-pointer-says"]++
+				o := c01FindObject(store, p.Oid)
+				if o == nil {
+					return p, &c01Fail{"object-missing", fmt.Sprintf("clean reported success although an extension program failed; pointer names %s (size %d) which is not in local storage", p.Oid, p.Size)}
+				}
+				if o.Sha != p.Oid || o.Size != p.Size {
+					return p, &c01Fail{"stored-differs-from-pointer", fmt.Sprintf("object stored under %s has %d bytes hashing to %s; pointer says size %d", p.Oid, o.Size, o.Sha, p.Size)}
+				}
+			}
+			return p, nil
+		}
+		smudgeFail := func(got c01SmudgeObs) *c01Fail {
+			f := c01JudgeSmudge(in.Data, got, cl)
+			if f != nil && phase == "clean" {
+				f.Msg = "clean reported success although an extension program failed (exit 3); the pointer it emitted does not lead back to the content: " + f.Msg
+			} else if f != nil {
+				f.Msg = "smudge reported success although an extension program failed (exit 3): " + f.Msg
+			}
+			return f
+		}
+		outcome := func(s string) { r.Outcome = fmt.Sprintf("extfail/%s/%s/%s/%s/%s", strings.SplitN(delivery, " ", 2)[0], phase, pos, beh, s) }
+
+		switch {
+		case delivery == "inproc":
+			req := c01Req{Repo: ext, InputFile: in.File, Path: "f.bin", WT: c01WT{Kind: "absent"}, Ch: ch}
+			obs, died, inconcl, toolerr := c01Inproc(e.pool, req)
+			if inconcl != "" {
+				r.Inconcl = inconcl
+				return r
+			}
+			if toolerr != "" {
+				r.ToolErr = toolerr
+				return r
+			}
+			if died != "" || obs.CleanErr != "" || obs.CleanPanic != "" {
+				if phase == "smudge" {
+					viol(&c01Fail{"filter-aborted", "clean failed although only a smudge program is broken: " + c01LastLines(died+obs.CleanErr+obs.CleanPanic, 4)}, nil)
+					outcome("FAIL-clean-aborted")
+					return r
+				}
+				outcome("clean-refused")
+				return r
+			}
+			p, f := judgeClean(obs.CleanOut, obs.Store)
+			if f != nil {
+				viol(f, map[string]interface{}{"emitted": c01Short(obs.CleanOut), "store": obs.Store})
+				outcome("FAIL-" + f.Clause)
+				return r
+			}
+			// smudge the emitted pointer in a request of its own (a process exit = smudge failed, which is fine)
+			r.Evals++
+			_ = p
+			pre := []string{e.stored[in.Name+"|"+c01BaseExt(ext)]}
+			if phase == "clean" {
+				// clean succeeded with a failing program: smudge with the same configuration (its smudge programs work)
+				sreq := req
+				sreq.Smudge = []c01Chunking{{}}
+				obs2, died2, inc2, terr2 := c01Inproc(e.pool, sreq) // clean again + smudge in the same request (true round trip)
+				if inc2 != "" {
+					r.Inconcl = inc2
+					return r
+				}
+				if terr2 != "" {
+					r.ToolErr = terr2
+					return r
+				}
+				if died2 != "" {
+					viol(&c01Fail{"smudge-aborted", "clean reported success although an extension program failed (exit 3); smudging the emitted pointer then fails:\n" + c01LastLines(died2, 5)}, map[string]interface{}{"pointer": string(obs.CleanOut), "store": obs.Store})
+					outcome("FAIL-smudge-aborted")
+					return r
+				}
+				if len(obs2.Smudges) == 1 {
+					if f := smudgeFail(obs2.Smudges[0]); f != nil {
+						viol(f, map[string]interface{}{"pointer": string(obs.CleanOut), "store": obs.Store})
+						outcome("FAIL-" + f.Clause)
+						return r
+					}
+				}
+				outcome("clean-succeeded-roundtrip-ok")
+				return r
+			}
+			sreq := c01Req{Repo: ext, InputFile: in.File, Path: "f.bin", WT: c01WT{Kind: "absent"}, NoClean: true, SmudgeSrc: obs.CleanOut, Smudge: []c01Chunking{{}}, PreStore: pre}
+			sobs, sdied, sinc, sterr := c01Inproc(e.pool, sreq)
+			if sinc != "" {
+				r.Inconcl = sinc
+				return r
+			}
+			if sterr != "" {
+				r.ToolErr = sterr
+				return r
+			}
+			if sdied != "" || len(sobs.Smudges) != 1 || sobs.Smudges[0].Err != "" || sobs.Smudges[0].Panic != "" {
+				outcome("smudge-refused")
+				return r
+			}
+			if f := smudgeFail(sobs.Smudges[0]); f != nil {
+				viol(f, map[string]interface{}{"pointer": string(obs.CleanOut)})
+				outcome("FAIL-" + f.Clause)
+				return r
+			}
+			outcome("smudge-succeeded-ok")
+			return r
+
+		case delivery == "oneshot":
+			w, repo := c01Repo(e.scratch, false, ext)
+			defer w.Close()
+			bin := filepath.Join(w.BinDir, "git-lfs")
+			cr := c01RunGated(w, repo, nil, []string{bin, "clean", "--", "f.bin"}, in.Data, ch.cutsFor(n))
+			if cr.Inconcl != "" || cr.ExecFail != "" {
+				r.Inconcl = "clean: " + cr.Inconcl + cr.ExecFail
+				return r
+			}
+			if cr.Code != 0 {
+				if phase == "smudge" {
+					viol(&c01Fail{"filter-aborted", fmt.Sprintf("`git-lfs clean` exited %d although only a smudge program is broken: %s", cr.Code, c01LastLines(cr.Err, 3))}, nil)
+					outcome("FAIL-clean-aborted")
+					return r
+				}
+				outcome("clean-refused")
+				return r
+			}
+			store := c01ScanStore(c01LfsDir(repo))
+			_, f := judgeClean(cr.Out, store)
+			if f != nil {
+				viol(f, map[string]interface{}{"emitted": c01Short(cr.Out), "store": store, "stderr": c01LastLines(cr.Err, 3)})
+				outcome("FAIL-" + f.Clause)
+				return r
+			}
+			r.Evals++
+			sr := c01RunGated(w, repo, nil, []string{bin, "smudge", "--", "f.bin"}, cr.Out, nil)
+			if sr.Inconcl != "" || sr.ExecFail != "" {
+				r.Inconcl = "smudge: " + sr.Inconcl + sr.ExecFail
+				return r
+			}
+			if sr.Code != 0 {
+				if phase == "clean" {
+					viol(&c01Fail{"smudge-aborted", fmt.Sprintf("`git-lfs clean` exited 0 although an extension program failed (exit 3); `git-lfs smudge` of the emitted pointer exits %d: %s", sr.Code, c01LastLines(sr.Err, 3))}, map[string]interface{}{"pointer": string(cr.Out), "store": store})
+					outcome("FAIL-smudge-aborted")
+					return r
+				}
+				outcome("smudge-refused")
+				return r
+			}
+			if f := smudgeFail(c01SmudgeObsOf(sr.Out, c01LastLines(sr.Err, 2))); f != nil {
+				viol(f, map[string]interface{}{"pointer": string(cr.Out), "store": store})
+				outcome("FAIL-" + f.Clause)
+				return r
+			}
+			outcome(phase + "-succeeded-ok")
+			return r
+
+		default: // real git
+			process := strings.Contains(delivery, "filter-process")
+			w, repo := c01Repo(e.scratch, process, ext)
+			defer w.Close()
+			gitx.WriteFile(repo, ".gitattributes", []byte("*.bin filter=lfs -text\n"), 0644)
+			gitx.WriteFile(repo, "f.bin", in.Data, 0644)
+			rs := w.Git(repo, "add", ".gitattributes", "f.bin")
+			if rs.TimedOut {
+				r.Inconcl = "git add timeout"
+				return r
+			}
+			if !rs.OK() {
+				if phase == "smudge" {
+					viol(&c01Fail{"filter-aborted", "git add failed although only a smudge program is broken: " + c01LastLines(rs.Err, 3)}, nil)
+					outcome("FAIL-clean-aborted")
+					return r
+				}
+				outcome("clean-refused")
+				return r
+			}
+			blob := []byte(w.Git(repo, "cat-file", "blob", ":f.bin").Out)
+			store := c01ScanStore(c01LfsDir(repo))
+			_, f := judgeClean(blob, store)
+			if f != nil {
+				f.Msg = "git add succeeded; " + f.Msg
+				viol(f, map[string]interface{}{"blob": c01Short(blob), "store": store, "stderr": c01LastLines(rs.Err, 3)})
+				outcome("FAIL-" + f.Clause)
+				return r
+			}
+			rc := w.Git(repo, "commit", "-qm", "c")
+			if rc.TimedOut || !rc.OK() {
+				r.Inconcl = "git commit did not succeed"
+				return r
+			}
+			os.Remove(filepath.Join(repo, "f.bin"))
+			r.Evals++
+			rk := w.Git(repo, "checkout", "-f", "--", "f.bin")
+			if rk.TimedOut {
+				r.Inconcl = "git checkout timeout"
+				return r
+			}
+			if !rk.OK() {
+				if phase == "clean" {
+					viol(&c01Fail{"smudge-aborted", "git add succeeded although an extension program failed (exit 3); git checkout of the file then fails: " + c01LastLines(rk.Err, 3)}, map[string]interface{}{"blob": string(blob), "store": store})
+					outcome("FAIL-smudge-aborted")
+					return r
+				}
+				outcome("smudge-refused")
+				return r
+			}
+			got, _ := os.ReadFile(filepath.Join(repo, "f.bin"))
+			if f := smudgeFail(c01SmudgeObsOf(got, "")); f != nil {
+				f.Msg = "git checkout succeeded; " + f.Msg
+				viol(f, map[string]interface{}{"blob": string(blob), "store": store})
+				outcome("FAIL-" + f.Clause)
+				return r
+			}
+			outcome(phase + "-succeeded-ok")
+			return r
+		}
+	}
+	return c01Part{"extfail", run}
+}
+
+// ---------------------------------------------------------------------------------------------------------
 // driver
 
 func c01Main(prop string) {
@@ -999,7 +1285,7 @@ func c01Main(prop string) {
 				e.stored[in.Name+"|"+ext] = p
 			}
 		}
-		parts = []c01Part{e.partInproc(), e.partOneshot(), e.partFilterProcess(), e.partGit(), e.partMerge()}
+		parts = []c01Part{e.partInproc(), e.partOneshot(), e.partFilterProcess(), e.partGit(), e.partMerge(), e.partExtFail()}
 		c01Describe(c, e)
 	}
 	finish := func(vp []vx.Part, extra map[string]interface{}) {
@@ -1060,6 +1346,7 @@ func c01Describe(c *vx.Check, e *c01Env) {
 		"working-tree file at the named path: absent, same bytes, prefix of length 0/1/100/1023/1024/1025/size-1, longer by 1 and by 2000. extensions: none, rot (tr; size preserving), chain rot+pfx (pfx prepends 4 bytes). " +
 		"inproc: full product on commands.clean/commands.smudge (+ stored object already present / present with wrong size; the emitted pointer smudged again as one read, 1 byte per read, cut at 1/60/60+120, and for three inputs at every position). " +
 		"oneshot: the real binary through a kernel pipe with exact chunking (quick: <=1 cut; thorough: <=2). filterprocess: packet payload sizes {1 (sizes<=1025),1023,1024,1025,65516,alternating 1/65516}. " +
+		"extfail: a pointer-extension program exiting 3 (only / last / non-last program) x {wrote nothing, wrote 3 bytes, exited before reading} x {clean, smudge} x {inproc, oneshot, git add+checkout with both filter modes} on 5 inputs (thorough: all text and look-alike inputs), judged only when git-lfs reports success. whitespace-only inputs of 1,2,1023,1024,1025,2048 bytes are part of the input set. " +
 		"git: git add + git checkout -f over absent/shorter/longer file, git hash-object --path with absent/shorter/longer file + git cat-file --filters, with filter-process and with one-shot filters. merge: git merge through git lfs merge-driver with merged size having fewer/equal/more digits than the current side, merged 1023/1024 bytes, look-alike text, documented --program. " +
 		"distinct_nontrivial = distinct cases with a non-empty input (the empty input is the trivial case); every case evaluates: pointer parses, size = content length, oid = SHA-256, object stored under the oid with exactly those bytes, extension lines, smudge yields the input"
 	c.Assumptions = []string{
